@@ -234,7 +234,7 @@ PROPS["C18"] = {
              "recursion, an unchecked flatten, a non-string map key, an enum without UNSPECIFIED or any validate/list/j5 option. Distinct by hash(files, messages)."),
     "assumptions": [],
     "lanes": [
-        lane("TestArbitrary", "arbitrary", 1500, 6000, shards=16, must_classes=["nested-depth>=3", "nested-name-reused", "nested-twin-chains", "field-numbers-out-of-order", "enum-numbers-out-of-order"]),
+        lane("TestArbitrary", "arbitrary", 1500, 6000, shards=16, must_classes=["nested-depth>=3", "nested-name-reused", "nested-twin-chains", "field-numbers-out-of-order", "enum-numbers-out-of-order", "flatten-cycle-off-root", "opt:generic:j5.ext.v1.field", "opt:generic:buf.validate.field", "opt:generic:j5.list.v1.field", "opt:generic:j5.ext.v1.message"]),
     ],
 }
 
